@@ -71,6 +71,68 @@ class Typer:
         self.fn_ret = {}
         for q, f in repo.fns.items():
             self.fn_ret.setdefault(f.name, []).append((q, f))
+        self.base_nodes = set()
+        self._base_params()
+
+    # ---- which parameters carry a shell's array base: those that receive one at some call site (fixpoint over the crate), whatever
+    # they are called
+    def _base_params(self):
+        envs_of = {}
+        for _round in range(4):
+            grew = False
+            for q, f in self.repo.fns.items():
+                if q not in envs_of:
+                    envs_of[q] = A.collect_envs(f)
+                envs = envs_of[q]
+                for c in A.walk(f.body):
+                    if c["k"] == "Call" and c["func"]["k"] == "Path":
+                        name, args, shift = c["func"]["path"].split("::")[-1], c["args"], 0
+                    elif c["k"] == "MethodCall":
+                        name, args, shift = c["method"], c["args"], 1
+                    else:
+                        continue
+                    cands = self.fn_ret.get(name)
+                    if not cands:
+                        continue
+                    for i, a in enumerate(args):
+                        if a["k"] == "Closure" or not self.is_base(a, envs.get(id(c))):
+                            continue
+                        for _, g in cands:
+                            j = i + (shift if g.params and g.params[0].get("name") == "self" else 0)
+                            if j < len(g.params) and id(g.params[j]) not in self.base_nodes and re.search(r"\b(u32|usize|u64)\b", g.params[j].get("ty") or ""):
+                                self.base_nodes.add(id(g.params[j]))
+                                grew = True
+            if not grew:
+                break
+
+    def is_base(self, e, env, depth=0):
+        while e is not None and e["k"] in ("Cast", "Ref", "Unary", "Paren"):
+            e = e["expr"]
+        if e is None or depth > 6:
+            return False
+        if e["k"] == "Match":
+            return bool(e["arms"]) and all(self.is_base(a["body"], env, depth + 1) for a in e["arms"])
+        if e["k"] == "Block" and e["stmts"] and e["stmts"][-1]["k"] == "ExprStmt" and not e["stmts"][-1].get("semi"):
+            return self.is_base(e["stmts"][-1]["expr"], env, depth + 1)
+        if e["k"] == "Call" and e["func"]["k"] == "Path" and not e["args"][1:]:
+            # a helper that maps the shell to its base (`array_start(shell)`): every candidate's value is a base
+            cands = self.fn_ret.get(e["func"]["path"].split("::")[-1]) or []
+            return bool(cands) and all(self.is_base(g.body, A.fn_env(g), depth + 1) for _, g in cands)
+        if e["k"] != "Path":
+            return False
+        last = e["path"].split("::")[-1]
+        if last == "ARRAY_START":
+            return True
+        if "::" in e["path"] or env is None:
+            return last in BASE_NAMES
+        df = env.get(e["path"])
+        if df is None:
+            return last in BASE_NAMES
+        if df.kind == "param":
+            return id(df.node) in self.base_nodes or last in BASE_NAMES
+        if df.kind == "let" and not df.proj and df.init is not None:
+            return self.is_base(df.init, df.env, depth + 1)
+        return last in BASE_NAMES
 
     # ---- structure of types
     def elem(self, t, hint=None):
@@ -259,9 +321,9 @@ class Typer:
                 r = strip(self.of(e["right"], env, depth + 1))
                 if e["op"] == "+":
                     # adding the shell's array base turns an automaton id into a script index: Off<T>
-                    if is_base(e["right"]):
+                    if self.is_base(e["right"], env):
                         return f"Off<{l}>"
-                    if is_base(e["left"]):
+                    if self.is_base(e["left"], env):
                         return f"Off<{r}>"
                 return l if l not in ("?", "int") else r
             return "bool"
